@@ -1,0 +1,153 @@
+//! Verification instrumentation.
+//!
+//! Only compiled with `--cfg aranya_verif` (never in normal
+//! builds). It provides
+//!
+//! - a process-global *yield point* hook: the instrumented code
+//!   calls [`point`] immediately before every access to memory
+//!   that is shared between threads or processes. Without an
+//!   installed hook this is a no-op.
+//! - a futex shim: `futex_wait`/`futex_wake` first ask the hook,
+//!   which may take over blocking and waking.
+//! - access to otherwise private types ([`VMutex`]).
+
+#![cfg(aranya_verif)]
+#![allow(missing_docs, clippy::missing_panics_doc)]
+
+use core::sync::atomic::{AtomicU32, AtomicUsize, Ordering};
+
+/// Called before a shared memory access.
+///
+/// `site` is one of the constants in [`site`], `a` usually is the
+/// address of the accessed atomic and `b` is site specific.
+pub type PointFn = fn(site: u32, a: usize, b: usize);
+
+/// Called by `futex_wait` (`op` = [`FUTEX_OP_WAIT`]) and
+/// `futex_wake` (`op` = [`FUTEX_OP_WAKE`]).
+///
+/// Returns `true` if the hook handled the operation.
+pub type FutexFn = fn(op: u32, addr: usize, val: u32) -> bool;
+
+pub const FUTEX_OP_WAIT: u32 = 0;
+pub const FUTEX_OP_WAKE: u32 = 1;
+
+static POINT: AtomicUsize = AtomicUsize::new(0);
+static FUTEX: AtomicUsize = AtomicUsize::new(0);
+
+/// Installs (or removes) the yield point hook.
+pub fn set_point_hook(f: Option<PointFn>) {
+    POINT.store(f.map_or(0, |f| f as usize), Ordering::SeqCst);
+}
+
+/// Installs (or removes) the futex hook.
+pub fn set_futex_hook(f: Option<FutexFn>) {
+    FUTEX.store(f.map_or(0, |f| f as usize), Ordering::SeqCst);
+}
+
+/// A yield point.
+#[inline]
+pub fn point(site: u32, a: usize, b: usize) {
+    let f = POINT.load(Ordering::Relaxed);
+    if f != 0 {
+        // SAFETY: only `set_point_hook` writes to `POINT` and it
+        // only stores zero or a valid `PointFn`.
+        let f = unsafe { core::mem::transmute::<usize, PointFn>(f) };
+        f(site, a, b);
+    }
+}
+
+/// The futex shim.
+#[inline]
+pub(crate) fn futex(op: u32, addr: &AtomicU32, val: u32) -> bool {
+    let f = FUTEX.load(Ordering::Relaxed);
+    if f == 0 {
+        return false;
+    }
+    // SAFETY: only `set_futex_hook` writes to `FUTEX` and it only
+    // stores zero or a valid `FutexFn`.
+    let f = unsafe { core::mem::transmute::<usize, FutexFn>(f) };
+    f(op, addr.as_ptr() as usize, val)
+}
+
+/// Yield point identifiers.
+pub mod site {
+    // mutex.rs
+    /// `Mutex::lock` is about to call `sys_lock` (`a` = key).
+    pub const MUTEX_LOCK: u32 = 1;
+    /// `MutexGuard::drop` is about to call `sys_unlock`.
+    pub const MUTEX_UNLOCK: u32 = 2;
+    /// `sys_lock`: fast path `compare_exchange`.
+    pub const MUTEX_CAS1: u32 = 3;
+    /// `sys_lock`: `load` in the passive spin loop.
+    pub const MUTEX_SPIN_LOAD: u32 = 4;
+    /// `sys_lock`: `compare_exchange` in the passive spin loop.
+    pub const MUTEX_SPIN_CAS: u32 = 5;
+    /// `sys_lock`: `swap(MUTEX_SLEEPING)`.
+    pub const MUTEX_SWAP: u32 = 6;
+    /// `sys_unlock`: `swap(MUTEX_UNLOCKED)`.
+    pub const MUTEX_UNLOCK_SWAP: u32 = 7;
+    /// `futex_wait` (only issued by the futex hook itself).
+    pub const FUTEX_WAIT: u32 = 8;
+    /// `futex_wake` (only issued by the futex hook itself).
+    pub const FUTEX_WAKE: u32 = 9;
+
+    // memory/lender.rs
+    /// `BiArc::try_clone`: `swap(SHARED)`.
+    pub const BIARC_CLONE_SWAP: u32 = 16;
+    /// `BiArc::get_if_shared`: `load`.
+    pub const BIARC_LOAD: u32 = 17;
+    /// `BiArc::drop`: `swap(UNSHARED)`.
+    pub const BIARC_DROP_SWAP: u32 = 18;
+    /// `BiArc::drop`: about to free the allocation.
+    pub const BIARC_FREE: u32 = 19;
+
+    // memory.rs
+    /// About to lock `State::inner` (`a` = address of the mutex).
+    pub const MEM_LOCK: u32 = 24;
+    /// `State::inner` was unlocked.
+    pub const MEM_UNLOCKED: u32 = 25;
+
+    // shm/*.rs
+    /// `State::read_off`: `read_off.load`.
+    pub const SHM_READ_OFF_LOAD: u32 = 32;
+    /// `State::write_off`: `write_off.load`.
+    pub const SHM_WRITE_OFF_LOAD: u32 = 33;
+    /// `State::swap_offsets`: `read_off.swap`.
+    pub const SHM_OFF_SWAP: u32 = 34;
+    /// `WriteState`: `write_off.store`.
+    pub const SHM_WRITE_OFF_STORE: u32 = 35;
+    /// `generation.fetch_add` (under the list's lock).
+    pub const SHM_GEN_BUMP: u32 = 36;
+    /// `ReadState::seal`/`open`: unsynchronized `generation.load`.
+    pub const SHM_GEN_LOAD: u32 = 37;
+    /// `WriteState::add`: `next_chan_id.fetch_add`.
+    pub const SHM_NEXT_ID: u32 = 38;
+}
+
+/// Gives access to the crate private shared memory mutex.
+#[cfg(any(test, feature = "memory", feature = "sdlib", feature = "posix"))]
+#[derive(Default, Debug)]
+pub struct VMutex<T>(crate::mutex::Mutex<T>);
+
+#[cfg(any(test, feature = "memory", feature = "sdlib", feature = "posix"))]
+impl<T> VMutex<T> {
+    pub fn new(v: T) -> Self {
+        Self(crate::mutex::Mutex::new(v))
+    }
+
+    /// Locks the mutex.
+    pub fn lock(&self) -> MutexGuard<'_, T> {
+        match self.0.lock() {
+            Ok(g) => g,
+            Err(e) => match e {},
+        }
+    }
+
+    /// The address of the mutex's key (its first word).
+    pub fn key_addr(&self) -> usize {
+        core::ptr::from_ref(&self.0) as usize
+    }
+}
+
+#[cfg(any(test, feature = "memory", feature = "sdlib", feature = "posix"))]
+pub use crate::mutex::MutexGuard;
